@@ -6,6 +6,7 @@ pub mod c04;
 pub mod c07;
 pub mod c08;
 pub mod c12;
+pub mod c13;
 pub mod c14;
 pub mod c15;
 
@@ -18,6 +19,7 @@ pub fn dispatch(ctx: &Ctx) -> i32 {
         "C07" => c07::run(ctx),
         "C08" => c08::run(ctx),
         "C12" => c12::run(ctx),
+        "C13" => c13::run(ctx),
         "C14" => c14::run(ctx),
         "C15" => c15::run(ctx),
         other => {
